@@ -141,6 +141,55 @@ pub fn leaf_alphabet() -> Vec<V> {
     l.push(V::Tag(u64::MAX, Box::new(V::Null)));
     l
 }
+/// known values at every CBOR head-width boundary (and 2^28, where a hand-written head encoder is most likely to slip)
+pub fn known_alphabet() -> Vec<u64> { vec![0, 1, 23, 24, 255, 256, 65535, 65536, (1 << 28) - 1, 1 << 28, 1 << 31, u32::MAX as u64, 1 << 32, 1 << 53, 1 << 63, u64::MAX] }
+fn valued_shapes(x: &M) -> Vec<M> {
+    let t = |s: &str| M::Leaf(V::Text(s.into()));
+    let a = |p: &str, o: &str| M::Assertion(Box::new(t(p)), Box::new(t(o)));
+    vec![
+        M::Node(Box::new(x.clone()), vec![a("vp", "vo")]),
+        M::Node(Box::new(t("vs")), vec![M::Assertion(Box::new(t("vp")), Box::new(x.clone()))]),
+        x.clone(),
+        M::Node(Box::new(t("vs")), vec![M::Assertion(Box::new(x.clone()), Box::new(t("vo")))]),
+        M::Wrapped(Box::new(x.clone())),
+        M::Node(Box::new(t("vs")), vec![M::Node(Box::new(M::Assertion(Box::new(t("vp")), Box::new(x.clone()))), vec![a("vq", "vr")])]),
+    ]
+}
+/// leaf values that embed a whole envelope (tag 200) with parts of its own: a node, and a wrapped assertion
+fn embedded_envelopes() -> Vec<V> {
+    let lf = |s: &str| V::Tag(201, Box::new(V::Text(s.into())));
+    vec![
+        V::Tag(200, Box::new(V::Array(vec![lf("emb-subject"), V::Map(vec![(lf("emb-pred"), lf("emb-obj"))])]))),
+        V::Tag(200, Box::new(V::Tag(200, Box::new(V::Map(vec![(lf("emb-pred"), V::U(7))]))))),
+    ]
+}
+/// digests of elements INSIDE the embedded envelopes above (and inside L's `200(201("inner"))` leaf)
+pub fn embedded_inner_digests() -> Vec<D> { vec![M::Leaf(V::Text("emb-subject".into())).digest(), M::Leaf(V::Text("emb-pred".into())).digest(), M::Leaf(V::Text("inner".into())).digest()] }
+/// The value-dependent family (added after seeding round 8): EVERY value of the leaf alphabet L, every known value of the boundary
+/// alphabet and two leaves that embed a whole envelope, each as subject, as object, alone, as predicate, wrapped, and as the object
+/// of an assertion that carries an assertion. The shape families use three atoms and markers only, so a fault that depends on WHAT
+/// a leaf holds (NaN, null, an empty string, a negative integer below i64::MIN, a tagged known value, an embedded envelope, a known
+/// value of 2^28 or 2^32) was invisible to every check except C01 / C05 / C15 / C16.
+pub fn valued() -> Vec<M> { valued_atoms().iter().flat_map(valued_shapes).collect() }
+pub fn valued_atoms() -> Vec<M> {
+    let mut atoms: Vec<M> = leaf_alphabet().into_iter().map(M::Leaf).collect();
+    atoms.extend(embedded_envelopes().into_iter().map(M::Leaf));
+    atoms.extend(known_alphabet().into_iter().map(M::Known));
+    atoms
+}
+/// three-assertion nodes holding each value as an object and as a predicate (for the add / remove / replace laws)
+pub fn valued_multi() -> Vec<(String, M)> {
+    let t = |s: &str| M::Leaf(V::Text(s.into()));
+    valued_atoms().into_iter().enumerate().map(|(i, x)| (format!("valued-{i}-{}", x.show().chars().take(24).collect::<String>()), M::Node(Box::new(t("vs")), vec![M::Assertion(Box::new(t("vp")), Box::new(x.clone())), M::Assertion(Box::new(x.clone()), Box::new(t("vo"))), M::Assertion(Box::new(t("vq")), Box::new(t("vr")))]))).collect()
+}
+/// a selection for the expensive checks: one value per kind, as subject and as object
+pub fn valued_few() -> Vec<M> {
+    let mut atoms: Vec<M> = vec![V::F(f64::NAN), V::Null, V::Neg(u64::MAX), V::Neg(1 << 63), V::Text("".into()), V::Bytes(vec![]), V::F(1.5), V::F(-0.0), V::Bool(false), V::Array(vec![V::F(f64::NAN), V::U(1)]),
+        V::Map(vec![(V::U(1), V::U(2))]), V::Tag(1, Box::new(V::F(1720091471.5))), V::Tag(40000, Box::new(V::U(1))), V::Tag(24, Box::new(V::Bytes(vec![1, 2, 3]))), V::Text("é".repeat(30))].into_iter().map(M::Leaf).collect();
+    atoms.push(M::Leaf(embedded_envelopes().remove(0)));
+    for k in [0u64, 1 << 28, u32::MAX as u64, 1 << 32, u64::MAX] { atoms.push(M::Known(k)) }
+    atoms.iter().flat_map(|x| valued_shapes(x).into_iter().take(2)).collect()
+}
 /// n-th permutation of 0..n (factorial number system for n <= 12; for longer lists a family of rotations / reversals / strides)
 pub fn nth_perm(n: usize, mut idx: usize) -> Vec<usize> {
     if n > 12 {
